@@ -36,6 +36,66 @@ def addr_of_field(n, mp=None, f=None):
     return False
 
 
+PROVIDER_PROBES = ['lib/upipe/uprobe_ubuf_mem.c', 'lib/upipe/uprobe_ubuf_mem_pool.c', 'lib/upipe/uprobe_uref_mgr.c', 'lib/upipe/uprobe_uclock.c']
+
+
+def check_probe_chain(rep, repo):
+    """a provider probe that cannot serve a request passes it on"""
+    rep.rule('R-probe-chain', 'the catch functions of the provider probes (ubuf_mem, ubuf_mem_pool, uref_mgr, uclock): a request either is answered '
+             '(urequest_provide_*) or goes on to the next probe (uprobe_throw_next); a return of an error constant is allowed only on the failure of the '
+             'duplication of the request\'s flow format (uref_dup == NULL, an allocation failure) - in particular a manager constructor that returns NULL for '
+             'a flow format it does not know is not a reason to stop the chain: a provider further down would never be asked')
+    prog = facts.load_program(PROVIDER_PROBES, repo=repo)
+    n = 0
+    for uname in PROVIDER_PROBES:
+        u = prog.units.get(uname)
+        if u is None:
+            raise facts.AnalysisBroken('anchor vanished: %s' % uname)
+        for fn in sorted(u.funcs.values(), key=lambda f: f.name):
+            if not fn.blocks or fn.macro or not (len(fn.params) == 4 and fn.params[0]['t'] == 'struct uprobe *' and 'va_list' in fn.params[3]['t']):
+                continue
+            if not any(x.get('k') == 'call' and (x.get('fn') or '').startswith('urequest_provide') for _, _, x in fn.nodes()):
+                continue
+            n += 1
+            ev = pr.Events(fn)
+            dups = set()
+            for _, _, x in fn.nodes():
+                if x.get('k') == 'decl':
+                    for v in x['vars']:
+                        i = strip_all_casts(v['init']) if isinstance(v.get('init'), dict) else None
+                        if isinstance(i, dict) and i.get('k') == 'call' and i.get('fn') in ('uref_dup', 'udict_dup'):
+                            dups.add(v['n'])
+
+            def dup_failed(ctree, pol, fn=fn, dups=dups):
+                # the arm taken when the duplicate is NULL
+                n_, neg = strip_expect(fn.resolve(ctree))
+                n_ = strip_all_casts(n_)
+                if not isinstance(n_, dict):
+                    return False
+                n_true = (pol != neg)
+                if n_.get('k') == 'ref':
+                    return n_.get('n') in dups and not n_true
+                if n_.get('k') == 'bin' and n_.get('op') in ('==', '!='):
+                    l, r = strip_all_casts(n_['lhs']), strip_all_casts(n_['rhs'])
+                    for a, b in ((l, r), (r, l)):
+                        if isinstance(a, dict) and a.get('k') == 'ref' and a.get('n') in dups and const_of(b) == 0:
+                            return n_true if n_['op'] == '==' else not n_true
+                return False
+            bad = []
+            for pos in ev.find(pr.m_return()):
+                e = pos[2].get('e')
+                en = enum_name(e) if isinstance(e, dict) else None
+                if en and en.startswith('UBASE_ERR_') and en != 'UBASE_ERR_NONE':
+                    if not pr.control_dependent(fn, ev, pos, dup_failed):
+                        bad.append(pos)
+            rep.add('R-probe-chain', fn.name, VIOLATED if bad else HOLDS, fn.loc,
+                    **({'what': '%s returns %s (line %s) on a path that is not the failure of duplicating the request\'s flow format: the request is neither '
+                                'answered nor passed to the next probe, a provider further down the hierarchy is never asked' % (
+                                    fn.name, enum_name(bad[0][2]['e']), bad[0][2].get('l'))} if bad else {}))
+    if n < 4:
+        raise facts.AnalysisBroken('R-probe-chain found only %d provider probes' % n)
+
+
 def run(tier='quick', repo=None):
     repo = repo or facts.REPO
     rep = Report(PROP, tier)
@@ -50,6 +110,7 @@ def run(tier='quick', repo=None):
     dirs = ['lib/upipe-modules'] if tier == 'quick' else ['lib/upipe-modules', 'lib/upipe-filters', 'lib/upipe-pthread']
     prog = c01.load(tier, repo, rep, quick=dirs, thorough=dirs)
     H = prog.hdr
+    check_probe_chain(rep, repo)
     rep.rule('R-reqpair', 'per control root: alloc_output_proxy is reached for REGISTER iff free_output_proxy is reached for UNREGISTER; likewise register_output_request / unregister_output_request')
     rep.rule('R-replay', 'X_set_output: (a) upipe_unregister_request(old OUTPUT, r) sits in a loop over REQUEST_LIST and precedes upipe_release; (b) upipe_register_request(new OUTPUT, r) is reachable after the OUTPUT store, guarded by !r->registered; (c) after a registration the scan of REQUEST_LIST restarts from the head')
     rep.rule('R-unreg-always', 'X_unregister_output_request: ulist_delete precedes every return; upipe_qsink_unregister_request: once the proxy is found every path to a return passes ulist_delete; X_free_output_proxy: unregister precedes urequest_free_proxy')
